@@ -99,13 +99,7 @@ Proof.
   { intros d'. unfold get_uplink_channel_index. destruct (find_index _ _ _); discriminate. }
   split; [apply I|].
   unfold get_uplink_channel_index_for_frequency_dr.
-  assert (L : forall ds, index_for_freq_dr_loop s f dr ds <> Panic).
-  { induction ds as [|d0 ds IH]; cbn [index_for_freq_dr_loop]; [discriminate|].
-    destruct (get_uplink_channel_index s f d0) eqn:E; try exact IH.
-    unfold get_uplink_channel. destruct (guarded_idx_spec (up s) a) as [[_ [c [E1 _]]]|[_ E1]]; rewrite E1.
-    - destruct ((minDR c <=? dr) && (maxDR c >=? dr)); [discriminate|exact IH].
-    - discriminate. }
-  apply L.
+  destruct (find_index _ _ _); [discriminate|]. destruct (find_index _ _ _); discriminate.
 Qed.
 
 (* out-of-range and negative indices are errors *)
@@ -183,25 +177,92 @@ Proof.
     rewrite Z.eqb_sym. apply H. now apply nth_error_In in E.
 Qed.
 
+(* lookup by frequency + data-rate: the answer matches; an error exactly when no channel
+   matches; default channels are preferred, and within the class the first one is returned *)
+Definition class_dr (t : list channel) (f dr : Z) (default : bool) (i : Z) : bool :=
+  match zidx_opt t i with
+  | Some c => freq_dr_class f dr default c
+  | None => false
+  end.
+
+Lemma find_class_spec (s : st) f dr d :
+  match find_index (freq_dr_class f dr d) (up s) 0 with
+  | Some i => class_dr (up s) f dr d i = true /\ forall j, 0 <= j < i -> class_dr (up s) f dr d j = false
+  | None => forall i, class_dr (up s) f dr d i = false
+  end.
+Proof.
+  pose proof (find_index_spec (freq_dr_class f dr d) (up s) 0) as H.
+  destruct (find_index _ (up s) 0) as [i|].
+  - destruct H as [H1 [[c [H2 H3]] H4]]. rewrite Z.sub_0_r in H2.
+    assert (R : (Z.to_nat i < length (up s))%nat) by (apply nth_error_Some; congruence).
+    unfold class_dr, zidx_opt. split.
+    + destruct ((i <? 0) || (Z.of_nat (length (up s)) <=? i)) eqn:G; [lia|]. now rewrite H2.
+    + intros j Hj. destruct ((j <? 0) || (Z.of_nat (length (up s)) <=? j)) eqn:G; [reflexivity|].
+      destruct (nth_error (up s) (Z.to_nat j)) as [c'|] eqn:E; [|reflexivity].
+      apply (H4 j c'); [lia|]. now rewrite Z.sub_0_r.
+  - intros i. unfold class_dr, zidx_opt.
+    destruct ((i <? 0) || (Z.of_nat (length (up s)) <=? i)); [reflexivity|].
+    destruct (nth_error (up s) (Z.to_nat i)) as [c|] eqn:E; [|reflexivity].
+    apply H. now apply nth_error_In in E.
+Qed.
+
+Lemma class_dr_matches t f dr d i : class_dr t f dr d i = true -> matches_freq_dr t f dr i = true.
+Proof.
+  unfold class_dr, matches_freq_dr, freq_dr_class. destruct (zidx_opt t i); [|discriminate]. lia.
+Qed.
+
+Lemma matches_class_dr t f dr i : matches_freq_dr t f dr i = true ->
+  class_dr t f dr true i = true \/ class_dr t f dr false i = true.
+Proof.
+  unfold class_dr, matches_freq_dr, freq_dr_class. destruct (zidx_opt t i) as [c|]; [|discriminate].
+  destruct (custom c); cbn [Bool.eqb negb]; lia.
+Qed.
+
+Theorem uplink_channel_index_for_frequency_dr_spec (s : st) f dr :
+  match get_uplink_channel_index_for_frequency_dr s f dr with
+  | Ok i => matches_freq_dr (up s) f dr i = true /\
+            (* a default channel is preferred; within its class it is the first *)
+            ((class_dr (up s) f dr true i = true /\ forall j, 0 <= j < i -> class_dr (up s) f dr true j = false) \/
+             (class_dr (up s) f dr false i = true /\ (forall j, class_dr (up s) f dr true j = false) /\
+              forall j, 0 <= j < i -> class_dr (up s) f dr false j = false))
+  | Err => forall i, matches_freq_dr (up s) f dr i = false
+  | _ => False
+  end.
+Proof.
+  unfold get_uplink_channel_index_for_frequency_dr.
+  pose proof (find_class_spec s f dr true) as HT. pose proof (find_class_spec s f dr false) as HF.
+  destruct (find_index (freq_dr_class f dr true) (up s) 0) as [i|].
+  - destruct HT as [A B]. split; [now apply class_dr_matches in A|]. left. auto.
+  - destruct (find_index (freq_dr_class f dr false) (up s) 0) as [i|].
+    + destruct HF as [A B]. split; [now apply class_dr_matches in A|]. right. auto.
+    + intros i. destruct (matches_freq_dr (up s) f dr i) eqn:M; [|reflexivity].
+      apply matches_class_dr in M. destruct M as [M|M]; [rewrite HT in M|rewrite HF in M]; discriminate.
+Qed.
+
 Theorem uplink_channel_index_for_frequency_dr_sound (s : st) f dr i :
   get_uplink_channel_index_for_frequency_dr s f dr = Ok i -> matches_freq_dr (up s) f dr i = true.
 Proof.
-  unfold get_uplink_channel_index_for_frequency_dr.
-  assert (L : forall ds, index_for_freq_dr_loop s f dr ds = Ok i -> matches_freq_dr (up s) f dr i = true).
-  { induction ds as [|d0 ds IH]; cbn [index_for_freq_dr_loop]; [discriminate|].
-    pose proof (uplink_channel_index_spec s f d0) as S.
-    destruct (get_uplink_channel_index s f d0) as [a| | |] eqn:E; try exact IH.
-    destruct S as [M _]. unfold matches_freq in M.
-    pose proof (get_uplink_channel_spec s a) as G.
-    destruct (zidx_opt (up s) a) as [c|] eqn:Z; [|discriminate].
-    assert (C : chan_at (up s) a = Some c).
-    { unfold zidx_opt in Z. unfold chan_at, zlen. exact Z. }
-    rewrite C in G. rewrite G.
-    destruct ((minDR c <=? dr) && (maxDR c >=? dr)) eqn:D; [|exact IH].
-    intros X. injection X as <-. unfold matches_freq_dr. rewrite Z.
-    apply andb_true_iff in M as [M _]. rewrite M. cbn. lia. }
-  apply L.
+  intros H. pose proof (uplink_channel_index_for_frequency_dr_spec s f dr) as S. rewrite H in S. apply S.
 Qed.
+
+Theorem uplink_channel_index_for_frequency_dr_complete (s : st) f dr i :
+  matches_freq_dr (up s) f dr i = true -> exists j, get_uplink_channel_index_for_frequency_dr s f dr = Ok j.
+Proof.
+  intros M. pose proof (uplink_channel_index_for_frequency_dr_spec s f dr) as S.
+  destruct (get_uplink_channel_index_for_frequency_dr s f dr) as [j| | |]; try contradiction; [eauto|].
+  rewrite S in M. discriminate.
+Qed.
+
+(* the code before the fix missed the second of two custom channels sharing a frequency *)
+Theorem frequency_dr_prefix_refuted :
+  let c1 := mkChannel 868300000 6 6 true true in
+  let c2 := mkChannel 868300000 7 7 true true in
+  let s := mkSt true 0 5 [c1; c2] [c1; c2] [] in
+  get_uplink_channel_index_for_frequency_dr_prefix s 868300000 7 = Err /\
+  matches_freq_dr (up s) 868300000 7 1 = true /\
+  get_uplink_channel_index_for_frequency_dr s 868300000 7 = Ok 1.
+Proof. vm_compute. repeat split; reflexivity. Qed.
+
 
 (* ---- histories ------------------------------------------------------------------------------ *)
 
